@@ -413,9 +413,26 @@ pub fn generate(seed: u64, quick: bool) -> BlockScenario {
     let mut steps: Vec<Vec<u32>> = vec![];
     let first = first.min(pool.len());
     if first > 0 {
-        steps.push(pool[..first].to_vec());
+        let mut batch = pool[..first].to_vec();
+        if first >= 2 && r.chance(1, 5) {
+            // duplicated packets inside the batch: anywhere, or as its very last element
+            let d = *r.pick(&batch);
+            if r.chance(1, 2) {
+                batch.push(d);
+            } else {
+                let at = r.usize_below(batch.len());
+                batch.insert(at, d);
+            }
+        }
+        steps.push(batch);
     }
     for e in &pool[first..] {
+        if r.chance(1, 25) {
+            // a call that carries a fresh symbol followed by a copy of an earlier one
+            let d = *r.pick(&pool);
+            steps.push(vec![*e, d]);
+            continue;
+        }
         steps.push(vec![*e]);
         if r.chance(1, 30) {
             // a duplicate arrival
